@@ -61,5 +61,17 @@ CHECKS['C09'] = {
     'technique': 'information-flow confinement of the automation flag + site/operation bijection + stale-guard dataflow',
 }
 
+CHECKS['C01'] = {
+    'level': 'Ledger / effect analysis on every path of every method that writes the chips: symbolic per-cell deltas of stacks, payoffs and bets '
+             '(mirror, transfer), the refund rule of the collection, pot <- -payoffs - bets and rake plumbing, quotient/remainder distribution at every '
+             'divmod site (loop arity derived from the getters, remainder exactly once for the first element), static upper bounds of every stack '
+             'decrement through inlined getters, symbolic identities of the default divmod/rake, ledger ownership over all modules, terminal pull rule, '
+             'and exhaustiveness of the arms that queue pots.',
+    'note': 'Conservation is reduced to clauses that are each visible on every path: stack-payoff mirror + pots computed from -payoffs-bets imply '
+            'stack+bet+pot = starting stack. Does NOT decide the arithmetic of the contribution-layer loop on concrete values, float/Decimal rounding, '
+            'or user-supplied divmod/rake callbacks. Forced bets assume bet==0 on entry (asserted in the code; reported as an assumption).',
+    'technique': 'path-sensitive symbolic delta (ledger) analysis + divmod distribution rule + bound inference',
+}
+
 ALL = [f'C{i:02d}' for i in range(1, 21)]
 NOT_APPLICABLE = {p: PENDING for p in ALL if p not in CHECKS}
